@@ -145,9 +145,9 @@ theorem parSetConstraint_err {p : Par} {c : Con} {e : Err} (h : parSetConstraint
   · cases h
 
 /-- the constraint part of the pair form raises ConstraintException only -/
-theorem aliasConstraints_err {w : World} {i1 i2 : ObjId} {e : Err} (h : (aliasConstraints w i1 i2).err = some e) :
+theorem aliasConstraintsL_err {w : World} {i1 i2 : ObjId} {e : Err} (h : (aliasConstraintsL w i1 i2).err = some e) :
     e = .constraint := by
-  simp only [aliasConstraints] at h
+  simp only [aliasConstraintsL] at h
   split at h
   · cases h
   · split at h
@@ -164,6 +164,13 @@ theorem aliasConstraints_err {w : World} {i1 i2 : ObjId} {e : Err} (h : (aliasCo
           simp only [Option.some.injEq] at h; subst h; exact parSetConstraint_err he'
         · cases h
     · cases h
+
+
+theorem aliasConstraints_err {w : World} {i1 i2 : ObjId} {e : Err} (h : (aliasConstraints w i1 i2).err = some e) :
+    e = .constraint := by
+  rcases aliasConstraints_cases w i1 i2 with h' | h' <;> rw [h'] at h
+  · cases h; rfl
+  · exact aliasConstraintsL_err h
 
 theorem aliasPair_no_hang {w : World} (h : Inv w) (k : Nat) (p1 p2 : String) : (aliasPair w k p1 p2).err ≠ some .hang := by
   cases ho : w.objs k with
